@@ -1433,4 +1433,521 @@ theorem disable_refines {s : St} (h : Inv s) (rid : Nat) :
       rw [heq]
       exact ⟨inv_disabledState h hr hmem, abs_disabledState h hr hen hmem⟩
 
+/-! ### a more general frame lemma: responders may change fields a dispatcher does not look at -/
+
+/-- the fields of a responder a dispatcher entry depends on -/
+def SameView (r r' : Resp) : Prop :=
+  r'.enabled = r.enabled ∧ r'.disp = r.disp ∧ r'.src = r.src ∧ r'.port = r.port ∧ r'.tmpl = r.tmpl ∧
+  r'.func = r.func ∧ r'.path = r.path
+
+theorem SameView.refl (r : Resp) : SameView r r := ⟨rfl, rfl, rfl, rfl, rfl, rfl, rfl⟩
+
+theorem DInv_frame' {s s' : St} {k : DispKind} (hd : s'.disp k = s.disp k)
+    (hl : ∀ p ∈ (s.disp k).wrapped, ∀ r, lookupResp s p.1 = some r →
+      ∃ r', lookupResp s' p.1 = some r' ∧ SameView r r')
+    (hen : ∀ rid r', lookupResp s' rid = some r' → r'.enabled = true → r'.disp = k →
+      rid ∈ (s.disp k).wrapped.map (·.1))
+    (hn : s.nextId ≤ s'.nextId) (h : DInv s k) : DInv s' k := by
+  refine ⟨by rw [hd]; exact h.wrRids, ?_, ?_, by rw [hd]; exact h.mids, ?_, ?_, by rw [hd]; exact h.keys,
+    by rw [hd]; exact h.nonempty, by rw [hd]; exact h.reg⟩
+  · intro p hp
+    rw [hd] at hp
+    obtain ⟨r, mid, h1, h2, h3, h4⟩ := h.wr p hp
+    obtain ⟨r', h1', e1, e2, e3, e4, e5, e6, _⟩ := hl p hp r h1
+    exact ⟨r', mid, h1', by rw [e1]; exact h2, by rw [e2]; exact h3, by rw [e3, e4, e5, e6]; exact h4⟩
+  · intro rid r' h1 h2 h3
+    rw [hd]; exact hen rid r' h1 h2 h3
+  · intro p hp
+    rw [hd] at hp
+    exact Nat.lt_of_lt_of_le (h.fresh p hp) hn
+  · intro key
+    rw [hd, h.act key]
+    congr 1
+    apply List.filter_congr
+    intro p hp
+    obtain ⟨r, _, h1, _⟩ := h.wr p hp
+    obtain ⟨r', h1', _, _, _, _, _, _, e7⟩ := hl p hp r h1
+    simp [hasPath, h1, h1', e7]
+
+/-! ### permanent -/
+
+def permState (s : St) (rid : Nat) (r : Resp) (v : Bool) (c : List ActKey) : St :=
+  { setResp s rid { r with permanent := v } with cmdPeriod := c }
+
+theorem permanent_refines {s : St} (h : Inv s) (rid : Nat) (v : Bool) :
+    Inv (setPermanent s rid v) ∧ abs (setPermanent s rid v) = asetPermanent (abs s) rid v := by
+  cases hr : lookupResp s rid with
+  | none =>
+    have : setPermanent s rid v = s := by simp [setPermanent, hr]
+    rw [this]
+    exact ⟨h, by simp [asetPermanent, alookup_abs, hr]⟩
+  | some r =>
+    have hL : ∀ (c : List ActKey) rid', lookupResp (permState s rid r v c) rid'
+        = if rid' = rid then some { r with permanent := v } else lookupResp s rid' := by
+      intro c rid'
+      have : lookupResp (permState s rid r v c) rid'
+          = lookupResp (setResp s rid { r with permanent := v }) rid' := lookupResp_congr rfl rid'
+      rw [this, lookupResp_setResp]
+      by_cases he : rid' = rid
+      · subst he; simp [hr]
+      · simp [he]
+    have hinv : ∀ (c : List ActKey), Inv (permState s rid r v c) := by
+      intro c
+      refine ⟨?_, ?_, ?_⟩
+      · have : (permState s rid r v c).resps = (setResp s rid { r with permanent := v }).resps := rfl
+        rw [this, rids_setResp]; exact h.rids
+      · intro rid' r' h1
+        rw [hL] at h1
+        by_cases he : rid' = rid
+        · subst he; simp only [if_true] at h1; cases h1; exact h.own rid' r hr
+        · simp only [he, if_false] at h1; exact h.own _ _ h1
+      · intro k
+        refine DInv_frame' (s := s) (s' := permState s rid r v c) (by cases k <;> rfl) ?_ ?_ (Nat.le_refl _) (h.d k)
+        · intro p hp r0 h0
+          rw [hL]
+          by_cases he : p.1 = rid
+          · rw [he, hr] at h0; cases h0
+            exact ⟨{ r with permanent := v }, by simp [he], rfl, rfl, rfl, rfl, rfl, rfl, rfl⟩
+          · exact ⟨r0, by simp [he, h0], SameView.refl r0⟩
+        · intro rid' r' h1 h2 h3
+          rw [hL] at h1
+          by_cases he : rid' = rid
+          · subst he; simp only [if_true] at h1; cases h1
+            exact (h.d k).en rid' r hr h2 h3
+          · simp only [he, if_false] at h1
+            exact (h.d k).en rid' r' h1 h2 h3
+    have habs : ∀ (c : List ActKey), abs (permState s rid r v c)
+        = { aset (abs s) rid { absResp r with permanent := v } with cmd := c } := by
+      intro c
+      apply ASt.ext'
+      · show (setResp s rid _).resps.map _ = _
+        rw [abs_resps_setResp]
+        simp [aset, abs, absResp]
+      · intro k; cases k <;> rfl
+      · intro k; cases k <;> rfl
+      · rfl
+    have hsp : setPermanent s rid v = permState s rid r v
+        (if v && r.enabled then cmdRemove (.resp rid) s.cmdPeriod else cmdAdd (.resp rid) s.cmdPeriod) := by
+      unfold setPermanent permState
+      simp only [hr]
+      split <;> rfl
+    rw [hsp]
+    refine ⟨hinv _, ?_⟩
+    rw [habs]
+    unfold asetPermanent
+    rw [alookup_abs, hr]
+    simp only [Option.map_some]
+    have : (absResp r).enabled = r.enabled := rfl
+    rw [this]
+    split <;> rfl
+
+/-! ### function replacement (`func=`, `one_shot`) -/
+
+theorem akeys_activeReplace (path : Str) (i : Ident) (new : Entry) : ∀ (act : Active),
+    akeys (activeReplace path i new act) = akeys act
+  | [] => rfl
+  | (k, es) :: rest => by
+    unfold activeReplace
+    split
+    · simp [akeys]
+    · simp only [akeys, List.map_cons]
+      have := akeys_activeReplace path i new rest
+      simp only [akeys] at this
+      rw [this]
+
+theorem lookupKey_activeReplace (path : Str) (i : Ident) (new : Entry) (key : Str) : ∀ (act : Active),
+    lookupKey key (activeReplace path i new act) =
+      if key = path then replaceFirst i new (lookupKey key act) else lookupKey key act
+  | [] => by simp [activeReplace, lookupKey, replaceFirst]
+  | (k, es) :: rest => by
+    unfold activeReplace
+    by_cases hk : k = path
+    · subst hk
+      simp only [if_true, lookupKey]
+      by_cases h : k = key
+      · subst h; simp
+      · have : ¬ key = k := fun e => h e.symm
+        simp [h, this]
+    · simp only [hk, if_false, lookupKey]
+      by_cases h : k = key
+      · subst h
+        have : ¬ k = path := hk
+        simp [this]
+      · simp only [h, if_false]
+        exact lookupKey_activeReplace path i new key rest
+
+theorem replaceFirst_length (i : Ident) (new : Entry) : ∀ (es : List Entry), (replaceFirst i new es).length = es.length
+  | [] => rfl
+  | e :: es => by
+    unfold replaceFirst
+    split
+    · rfl
+    · simp [replaceFirst_length i new es]
+
+theorem activeReplace_nonempty (path : Str) (i : Ident) (new : Entry) : ∀ (act : Active), (∀ q ∈ act, q.2 ≠ []) →
+    ∀ q ∈ activeReplace path i new act, q.2 ≠ []
+  | [], _, q, hq => by simp [activeReplace] at hq
+  | (k, es) :: rest, hne, q, hq => by
+    unfold activeReplace at hq
+    split at hq
+    · rcases List.mem_cons.mp hq with rfl | hq
+      · have := hne (k, es) List.mem_cons_self
+        intro e
+        have hl := replaceFirst_length i new es
+        simp only at e
+        rw [e] at hl
+        exact this (List.eq_nil_of_length_eq_zero hl.symm)
+      · exact hne q (List.mem_cons_of_mem _ hq)
+    · rcases List.mem_cons.mp hq with rfl | hq
+      · exact hne _ List.mem_cons_self
+      · exact activeReplace_nonempty path i new rest (fun q hq => hne q (List.mem_cons_of_mem _ hq)) q hq
+
+theorem activeReplace_isEmpty (path : Str) (i : Ident) (new : Entry) (act : Active) :
+    (activeReplace path i new act).isEmpty = act.isEmpty := by
+  cases act with
+  | nil => rfl
+  | cons p rest => obtain ⟨k, es⟩ := p; unfold activeReplace; split <;> rfl
+
+def updWr (rid : Nat) (e : Entry) (p : Nat × Entry) : Nat × Entry := if p.1 == rid then (rid, e) else p
+
+theorem updWr_fst (rid : Nat) (e : Entry) (p : Nat × Entry) : (updWr rid e p).1 = p.1 := by
+  unfold updWr
+  by_cases h : (p.1 == rid) = true
+  · simp only [h, if_true]; exact (by simpa using h : p.1 = rid).symm
+  · simp [h]
+
+/-- the state after replacing the function of an ENABLED responder -/
+def funcState (s : St) (rid : Nat) (r' : Resp) (old : Entry) : St :=
+  let k := r'.disp
+  let D := s.disp k
+  let e := wrapFunc rid r' s.nextId
+  let D' : Disp := { D with active := activeReplace r'.path old.ident e D.active,
+                            wrapped := D.wrapped.map (updWr rid e) }
+  { ((setResp s rid r').setDisp k D') with nextId := s.nextId + 1 }
+
+theorem setFunc_eq_enabled {s : St} (h : Inv s) {rid : Nat} {r : Resp} (hr : lookupResp s rid = some r)
+    (hen : r.enabled = true) (f : Fn) :
+    ∃ old, (rid, old) ∈ (s.disp r.disp).wrapped ∧ setFunc s rid f = funcState s rid { r with func := f } old := by
+  have hm := (h.d r.disp).en rid r hr hen rfl
+  obtain ⟨old, hf, hmem⟩ := find_wrapped hm
+  refine ⟨old, hmem, ?_⟩
+  unfold setFunc funcState dispUpdate
+  simp only [hr, disp_setResp, hf, nextId_setResp]
+  rfl
+
+theorem setFunc_eq_disabled {s : St} (h : Inv s) {rid : Nat} {r : Resp} (hr : lookupResp s rid = some r)
+    (hen : r.enabled = false) (f : Fn) : setFunc s rid f = setResp s rid { r with func := f } := by
+  have hnm := not_in_wrapped_of_disabled (h.d r.disp) hr hen
+  have : (s.disp r.disp).wrapped.find? (·.1 == rid) = none := by
+    rw [List.find?_eq_none]
+    intro p hp
+    have : p.1 ≠ rid := fun e => hnm (e ▸ List.mem_map_of_mem hp)
+    simpa using this
+  unfold setFunc dispUpdate
+  simp only [hr, disp_setResp, this]
+
+theorem lookupResp_funcState (s : St) (rid : Nat) (r' : Resp) (old : Entry) {r : Resp}
+    (hr : lookupResp s rid = some r) (rid' : Nat) :
+    lookupResp (funcState s rid r' old) rid' = if rid' = rid then some r' else lookupResp s rid' := by
+  have : lookupResp (funcState s rid r' old) rid' = lookupResp (setResp s rid r') rid' := by
+    apply lookupResp_congr
+    unfold funcState
+    simp
+  rw [this, lookupResp_setResp]
+  by_cases he : rid' = rid
+  · subst he; simp [hr]
+  · simp [he]
+
+theorem disp_funcState (s : St) (rid : Nat) (r' : Resp) (old : Entry) (k : DispKind) :
+    (funcState s rid r' old).disp k =
+      if k = r'.disp then { s.disp k with
+        active := activeReplace r'.path old.ident (wrapFunc rid r' s.nextId) (s.disp k).active,
+        wrapped := (s.disp k).wrapped.map (updWr rid (wrapFunc rid r' s.nextId)) } else s.disp k := by
+  unfold funcState
+  have : ∀ (t : St) (n : Nat), ({ t with nextId := n } : St).disp k = t.disp k := by
+    intro t n; cases k <;> rfl
+  rw [this, disp_setDisp]
+  by_cases h : k = r'.disp
+  · subst h; simp
+  · simp [h]
+
+theorem map_updWr_fst (rid : Nat) (e : Entry) (wr : List (Nat × Entry)) :
+    (wr.map (updWr rid e)).map (·.1) = wr.map (·.1) := by
+  rw [List.map_map]
+  apply List.map_congr_left
+  intro p _
+  exact updWr_fst rid e p
+
+theorem filter_map_updWr (rid : Nat) (e : Entry) (P : Nat → Bool) (wr : List (Nat × Entry)) :
+    (wr.map (updWr rid e)).filter (fun p => P p.1) = (wr.filter (fun p => P p.1)).map (updWr rid e) := by
+  rw [List.filter_map]
+  congr 1
+  apply List.filter_congr
+  intro p _
+  simp [Function.comp, updWr_fst]
+
+theorem nodup_replace_fresh {wr : List (Nat × Entry)} {rid n : Nat} {e : Entry} (he : e.mid = n)
+    (hr : (wr.map (·.1)).Nodup) (hm : (wr.map (fun p => p.2.mid)).Nodup) (hf : ∀ p ∈ wr, p.2.mid < n) :
+    ((wr.map (updWr rid e)).map (fun p => p.2.mid)).Nodup := by
+  induction wr with
+  | nil => simp
+  | cons x xs ih =>
+    simp only [List.map_cons, List.nodup_cons] at hr hm ⊢
+    have ihx := ih hr.2 hm.2 (fun p hp => hf p (List.mem_cons_of_mem _ hp))
+    refine ⟨?_, ihx⟩
+    intro hmem
+    obtain ⟨q, hq, heq⟩ := List.mem_map.mp hmem
+    obtain ⟨p, hp, rfl⟩ := List.mem_map.mp hq
+    by_cases hx : (x.1 == rid) = true
+    · have hxr : x.1 = rid := by simpa using hx
+      have hpn : p.1 ≠ rid := fun e1 => hr.1 (by rw [hxr, ← e1]; exact List.mem_map_of_mem hp)
+      have hpf : (p.1 == rid) = false := by simpa using hpn
+      simp only [updWr, hx, hpf, if_true, Bool.false_eq_true, if_false] at heq
+      have := hf p (List.mem_cons_of_mem _ hp)
+      omega
+    · simp only [updWr, hx, Bool.false_eq_true, if_false] at heq
+      by_cases hpq : (p.1 == rid) = true
+      · simp only [hpq, if_true] at heq
+        have := hf x List.mem_cons_self
+        omega
+      · simp only [hpq, Bool.false_eq_true, if_false] at heq
+        exact hm.1 (heq ▸ List.mem_map_of_mem hp)
+
+theorem inv_funcState {s : St} (h : Inv s) {rid : Nat} {r : Resp} {old : Entry} (f : Fn)
+    (hr : lookupResp s rid = some r) (hen : r.enabled = true) (hmem : (rid, old) ∈ (s.disp r.disp).wrapped)
+    (hf : FnOwned rid f) : Inv (funcState s rid { r with func := f } old) := by
+  have hL := fun rid' => lookupResp_funcState s rid { r with func := f } old hr rid'
+  have hD := disp_funcState s rid { r with func := f } old
+  refine ⟨?_, ?_, ?_⟩
+  · have : (funcState s rid { r with func := f } old).resps = (setResp s rid { r with func := f }).resps := by
+      unfold funcState; simp
+    rw [this, rids_setResp]; exact h.rids
+  · intro rid' r' h1
+    rw [hL] at h1
+    by_cases he : rid' = rid
+    · subst he; simp only [if_true] at h1; cases h1; exact hf
+    · simp only [he, if_false] at h1; exact h.own _ _ h1
+  · intro k
+    by_cases hk : k = r.disp
+    · subst hk
+      have hd := h.d r.disp
+      have hDk := hD r.disp
+      simp only [if_true] at hDk
+      have hwrapmid : (wrapFunc rid { r with func := f } s.nextId).mid = s.nextId := rfl
+      refine ⟨?_, ?_, ?_, ?_, ?_, ?_, ?_, ?_, ?_⟩
+      · rw [hDk]; simp only [map_updWr_fst]; exact hd.wrRids
+      · intro p' hp'
+        rw [hDk] at hp'
+        obtain ⟨p, hp, rfl⟩ := List.mem_map.mp hp'
+        by_cases he : (p.1 == rid) = true
+        · have he' : p.1 = rid := by simpa using he
+          refine ⟨{ r with func := f }, s.nextId, ?_, hen, rfl, ?_⟩
+          · rw [hL]; simp [updWr, he]
+          · simp [updWr, he, wrapFunc]
+        · have he' : p.1 ≠ rid := by simpa using he
+          obtain ⟨r0, mid, h1, h2, h3, h4⟩ := hd.wr p hp
+          refine ⟨r0, mid, ?_, h2, h3, ?_⟩
+          · rw [hL]; simp [updWr, he, he', h1]
+          · simp [updWr, he, h4]
+      · intro rid' r' h1 h2 h3
+        rw [hDk]; simp only [map_updWr_fst]
+        rw [hL] at h1
+        by_cases he : rid' = rid
+        · subst he; exact hd.en rid' r hr hen rfl
+        · simp only [he, if_false] at h1; exact hd.en rid' r' h1 h2 h3
+      · rw [hDk]; exact nodup_replace_fresh hwrapmid hd.wrRids hd.mids hd.fresh
+      · intro p' hp'
+        rw [hDk] at hp'
+        obtain ⟨p, hp, rfl⟩ := List.mem_map.mp hp'
+        have hn : (funcState s rid { r with func := f } old).nextId = s.nextId + 1 := by
+          unfold funcState; simp
+        rw [hn]
+        by_cases he : (p.1 == rid) = true
+        · simp only [updWr, he, if_true, hwrapmid]; omega
+        · simp only [updWr, he, Bool.false_eq_true, if_false]
+          have := hd.fresh p hp; omega
+      · intro key
+        rw [hDk]
+        simp only
+        have hhp : ∀ x, hasPath (funcState s rid { r with func := f } old) x key = hasPath s x key := by
+          intro x
+          unfold hasPath
+          rw [hL]
+          by_cases he : x = rid
+          · subst he; simp [hr]
+          · simp [he]
+        have hfilter : ((s.disp r.disp).wrapped.map (updWr rid (wrapFunc rid { r with func := f } s.nextId))).filter
+            (fun p => hasPath (funcState s rid { r with func := f } old) p.1 key)
+            = ((s.disp r.disp).wrapped.filter (fun p => hasPath s p.1 key)).map
+                (updWr rid (wrapFunc rid { r with func := f } s.nextId)) := by
+          simp only [hhp]
+          exact filter_map_updWr rid _ (fun x => hasPath s x key) _
+        rw [hfilter, lookupKey_activeReplace, hd.act key, List.map_map]
+        have hnd : ((((s.disp r.disp).wrapped.filter (fun p => hasPath s p.1 key)).map (·.2)).map Entry.ident).Nodup := by
+          rw [List.map_map]
+          exact List.Nodup.sublist (List.Sublist.map _ List.filter_sublist) (idents_nodup hd)
+        by_cases hkey : key = r.path
+        · subst hkey
+          simp only [if_true]
+          rw [replaceFirst_eq_map _ _ _ hnd, List.map_map]
+          apply List.map_congr_left
+          intro p hp
+          have hpw := (List.mem_filter.mp hp).1
+          have hiff := ident_eq_iff_rid_eq hd hpw hmem
+          simp only [Function.comp, updWr]
+          by_cases h1 : p.1 = rid
+          · have h2 : p.2.ident = old.ident := hiff.mpr h1
+            simp [h1, h2]
+          · have h2 : ¬ p.2.ident = old.ident := fun x => h1 (hiff.mp x)
+            have h3 : (p.1 == rid) = false := by simpa using h1
+            simp [h2, h3]
+        · simp only [hkey, if_false]
+          apply List.map_congr_left
+          intro p hp
+          have hh := (List.mem_filter.mp hp).2
+          have : p.1 ≠ rid := by
+            intro e1
+            rw [e1] at hh
+            simp only [hasPath, hr] at hh
+            have hh' : r.path = key := by simpa using hh
+            exact hkey hh'.symm
+          have h3 : (p.1 == rid) = false := by simpa using this
+          simp [Function.comp, updWr, h3]
+      · rw [hDk]; simp only [akeys_activeReplace]; exact hd.keys
+      · rw [hDk]; exact activeReplace_nonempty _ _ _ _ hd.nonempty
+      · rw [hDk]; simp only [activeReplace_isEmpty]; exact hd.reg
+    · have hDk := hD k
+      have hk' : ¬ k = ({ r with func := f } : Resp).disp := hk
+      simp only [hk', if_false] at hDk
+      refine DInv_frame (s := s) hDk ?_ ?_ (by unfold funcState; simp) (h.d k)
+      · intro p hp
+        rw [hL]
+        have : p.1 ≠ rid := by
+          intro e1
+          obtain ⟨r0, _, h1, _, h3, _⟩ := (h.d k).wr p hp
+          rw [e1, hr] at h1; cases h1
+          exact hk h3.symm
+        simp [this]
+      · intro rid' r' h1 h2 h3
+        rw [hL] at h1
+        by_cases he : rid' = rid
+        · subst he; simp only [if_true] at h1; cases h1; exact absurd h3.symm hk
+        · simp only [he, if_false] at h1; exact (h.d k).en rid' r' h1 h2 h3
+
+theorem abs_funcState (s : St) (rid : Nat) (r' : Resp) (old : Entry) :
+    abs (funcState s rid r' old) = aset (abs s) rid (absResp r') := by
+  have hD := disp_funcState s rid r' old
+  apply ASt.ext'
+  · have : (funcState s rid r' old).resps = (setResp s rid r').resps := by unfold funcState; simp
+    show (funcState s rid r' old).resps.map _ = _
+    rw [this, abs_resps_setResp]
+    rfl
+  · intro k
+    rw [abs_ord, hD k, ord_aset, abs_ord]
+    split
+    · simp only [map_updWr_fst]
+    · rfl
+  · intro k
+    rw [abs_keys, hD k, keys_aset, abs_keys]
+    split
+    · simp only [akeys_activeReplace]
+    · rfl
+  · show (funcState s rid r' old).cmdPeriod = s.cmdPeriod
+    unfold funcState; simp
+
+theorem abs_setResp (s : St) (rid : Nat) (r' : Resp) : abs (setResp s rid r') = aset (abs s) rid (absResp r') := by
+  apply ASt.ext'
+  · show (setResp s rid r').resps.map _ = _
+    rw [abs_resps_setResp]; rfl
+  · intro k; cases k <;> rfl
+  · intro k; cases k <;> rfl
+  · rfl
+
+theorem inv_setResp_disabled {s : St} (h : Inv s) {rid : Nat} {r : Resp} (hr : lookupResp s rid = some r)
+    (hen : r.enabled = false) (r' : Resp) (hen' : r'.enabled = false) (hown : FnOwned rid r'.func) :
+    Inv (setResp s rid r') := by
+  have hL : ∀ rid', lookupResp (setResp s rid r') rid' = if rid' = rid then some r' else lookupResp s rid' := by
+    intro rid'
+    rw [lookupResp_setResp]
+    by_cases he : rid' = rid
+    · subst he; simp [hr]
+    · simp [he]
+  refine ⟨by rw [rids_setResp]; exact h.rids, ?_, ?_⟩
+  · intro rid' r0 h1
+    rw [hL] at h1
+    by_cases he : rid' = rid
+    · subst he; simp only [if_true] at h1; cases h1; exact hown
+    · simp only [he, if_false] at h1; exact h.own _ _ h1
+  · intro k
+    refine DInv_frame (s := s) (disp_setResp s rid r' k) ?_ ?_ (Nat.le_refl _) (h.d k)
+    · intro p hp
+      rw [hL]
+      have : p.1 ≠ rid := by
+        intro e1
+        obtain ⟨r0, _, h1, h2, _, _⟩ := (h.d k).wr p hp
+        rw [e1, hr] at h1; cases h1
+        rw [hen] at h2; cases h2
+      simp [this]
+    · intro rid' r0 h1 h2 h3
+      rw [hL] at h1
+      by_cases he : rid' = rid
+      · subst he; simp only [if_true] at h1; cases h1; rw [hen'] at h2; cases h2
+      · simp only [he, if_false] at h1; exact (h.d k).en rid' r0 h1 h2 h3
+
+/-- replacing a responder's function refines `asetFunc` -/
+theorem setFunc_refines {s : St} (h : Inv s) (rid : Nat) (f : Fn) (g : AFn → AFn)
+    (hf : ∀ r, lookupResp s rid = some r → FnOwned rid f ∧ absFn f = g (absFn r.func)) :
+    Inv (setFunc s rid f) ∧ abs (setFunc s rid f) = asetFunc (abs s) rid g := by
+  cases hr : lookupResp s rid with
+  | none =>
+    have : setFunc s rid f = s := by simp [setFunc, hr]
+    rw [this]
+    exact ⟨h, by simp [asetFunc, alookup_abs, hr]⟩
+  | some r =>
+    obtain ⟨hown, hg⟩ := hf r hr
+    have habsr : asetFunc (abs s) rid g = aset (abs s) rid (absResp { r with func := f }) := by
+      unfold asetFunc
+      rw [alookup_abs, hr]
+      simp only [Option.map_some]
+      congr 1
+      simp [absResp, hg]
+    cases hen : r.enabled
+    · rw [setFunc_eq_disabled h hr hen f]
+      exact ⟨inv_setResp_disabled h hr hen _ hen hown, by rw [abs_setResp, habsr]⟩
+    · obtain ⟨old, hmem, heq⟩ := setFunc_eq_enabled h hr hen f
+      rw [heq]
+      exact ⟨inv_funcState h f hr hen hmem hown, by rw [abs_funcState, habsr]⟩
+
+theorem inv_bump {s : St} (h : Inv s) (n : Nat) (hn : s.nextId ≤ n) : Inv ({ s with nextId := n } : St) := by
+  refine ⟨h.rids, fun rid r hr => h.own rid r hr, ?_⟩
+  intro k
+  exact DInv_frame (s := s) (by cases k <;> rfl) (fun p _ => rfl) (fun rid r' h1 h2 h3 => (h.d k).en rid r' h1 h2 h3)
+    hn (h.d k)
+
+theorem abs_bump (s : St) (n : Nat) : abs ({ s with nextId := n } : St) = abs s := rfl
+
+theorem oneShot_refines {s : St} (h : Inv s) (rid : Nat) :
+    Inv (oneShot s rid) ∧ abs (oneShot s rid) = asetFunc (abs s) rid .once := by
+  cases hr : lookupResp s rid with
+  | none =>
+    have : oneShot s rid = s := by simp [oneShot, hr]
+    rw [this]
+    exact ⟨h, by simp [asetFunc, alookup_abs, hr]⟩
+  | some r =>
+    have heq : oneShot s rid = setFunc { s with nextId := s.nextId + 1 } rid (.oneShot s.nextId rid r.func) := by
+      simp [oneShot, hr]
+    rw [heq]
+    have hb := inv_bump h (s.nextId + 1) (Nat.le_succ _)
+    have := setFunc_refines hb rid (.oneShot s.nextId rid r.func) AFn.once (by
+      intro r0 h0
+      have : lookupResp ({ s with nextId := s.nextId + 1 } : St) rid = lookupResp s rid := lookupResp_congr rfl rid
+      rw [this, hr] at h0; cases h0
+      exact ⟨⟨rfl, h.own rid r hr⟩, rfl⟩)
+    rw [abs_bump] at this
+    exact this
+
+theorem setFuncUser_refines {s : St} (h : Inv s) (rid fid : Nat) :
+    Inv (setFunc s rid (.user fid)) ∧ abs (setFunc s rid (.user fid)) = asetFunc (abs s) rid (fun _ => .user fid) :=
+  setFunc_refines h rid (.user fid) (fun _ => .user fid) (fun _ _ => ⟨trivial, rfl⟩)
+
 end Sc3Verif.C18
